@@ -76,6 +76,53 @@ HARNESSES = [
        tiers=('thorough',)) for k in range(4)
 ]
 
+# ---- template instantiation of array types; unqualified type lookup from a class scope -----------------------------------
+_SUBST_TUS = [_P + x for x in ('cppArrayType.cxx', 'cppExpression.cxx', 'cppSimpleType.cxx', 'cppClassTemplateParameter.cxx',
+                               'cppInstance.cxx', 'cppIdentifier.cxx', 'cppNameComponent.cxx', 'cppType.cxx', 'cppDeclaration.cxx',
+                               'cppAttributeList.cxx', 'cppFile.cxx')] + ['src/dtoolutil/filename.cxx']
+_SCOPE_TUS = [_P + x for x in ('cppScope.cxx', 'cppStructType.cxx', 'cppExtensionType.cxx', 'cppSimpleType.cxx', 'cppIdentifier.cxx',
+                               'cppNameComponent.cxx', 'cppType.cxx', 'cppDeclaration.cxx', 'cppAttributeList.cxx',
+                               'cppFile.cxx')] + ['src/dtoolutil/filename.cxx']
+# std::map<std::string, CPPType *>::find const (CPPScope::Types)
+_TYPES_FIND = ('_ZNKSt8_Rb_treeINSt7__cxx1112basic_stringIcSt11char_traitsIcESaIcEEESt4pairIKS5_P7CPPTypeESt10_Select1stISA_ESt4lessIS5_ESaISA_EE'
+               '4findERS7_')
+_SUBST_LOOPS = {'ll_strlen.0': 16, 'll_memcpy.0': 130, 'll_memcmp.0': 16, 'll_memmove.0': 32,
+                '_ZN12CPPArrayType15substitute_declERSt3mapIP14CPPDeclarationS2_St4lessIS2_ESaISt4pairIKS2_S2_EEEP8CPPScopeSC_': 3,
+                '_ZNK13CPPExpression8evaluateEv': 2, '_ZNKSt4lessIP14CPPDeclarationEclES1_S1_.0': 34, '_ZNKSt4lessIP14CPPDeclarationEclES1_S1_.1': 34}
+
+_ELEM_NAMES = ['int', 'T', 'int[N] (array of arrays, inner bound dependent)', 'int[C] (array of arrays, inner bound literal)']
+
+
+def _subst(k, bounds_mask=15, suffix=''):
+    return dict(id='c06_subst_array_e%d%s' % (k, suffix), property='C06', src='c06_subst_array.cxx', entry='harness_c06_subst_array',
+                tus=_SUBST_TUS, cut=_CUT + ['_ZNKSt4lessIP14CPPDeclarationEclES1_S1_'],
+                tuflags=['-fno-inline', '-fno-pic'], models=['noinline.c'], skip_ctors=[x.split('/')[-1] for x in _SUBST_TUS],
+                desc='CPPArrayType::substitute_decl (template instantiation): member arrays of template<class T, int N> struct S '
+                     'instantiated as S<float, V>; element type ' + _ELEM_NAMES[k],
+                domain='element type ' + _ELEM_NAMES[k] + ' x bound in {literal C, parameter N, unrelated variable M, none} '
+                       '(concrete loop: 4 object graphs in one query); V and C symbolic over all of int; instantiation map '
+                       '{T -> float, N -> V}; std::less<CPPDeclaration *> (address order of the std::map) fixed to first-seen order',
+                oracle='the bound evaluates (real CPPExpression::evaluate) to V where N was written and to C where C was written, the '
+                       'element type is float where T was written, the result is the template\'s own type object exactly when '
+                       'nothing depended on a parameter, the template\'s own type is unmodified, a second substitution returns '
+                       'the same type',
+                bounds={'quick': {'defs': {'ELEMS': 1 << k, 'BOUNDS': bounds_mask}, 'unwind': 8, 'unwindset': _SUBST_LOOPS, 'cap': 600}})
+
+
+HARNESSES += [_subst(k) for k in range(4)] + [_subst(0, 1 << b, '_dbg%d' % b) for b in range(4)] + [
+    dict(id='c06_scope_lookup', property='C06', src='c06_scope_lookup.cxx', entry='harness_c06_scope_lookup', tus=_SCOPE_TUS,
+         cut=_CUT + [_TYPES_FIND],
+         skip_ctors=[x.split('/')[-1] for x in _SCOPE_TUS],
+         desc='CPPScope::find_type(name, recurse) from a class scope: struct Widget : L::Node, struct L::Node : K::Base, '
+              'namespaces K and L under the global scope',
+         domain='which of the six scopes ::, K, L, K::Base, L::Node, Widget declare a type named X (6 symbolic bits, each scope '
+                'its own type object); recurse flag symbolic; the scope graph itself is concrete',
+         oracle='C++ unqualified lookup order: Widget, then L::Node, then K::Base (members of base classes, never the namespaces '
+                'K / L enclosing them), then -- with recurse -- the global scope; from L::Node\'s own scope: Node, Base, L, ::',
+         bounds={'quick': {'defs': {}, 'unwind': 8, 'unwindset': {'ll_strlen.0': 16, 'll_memcpy.0': 32, 'll_memcmp.0': 16,
+                                                                   'll_memmove.0': 32}, 'cap': 600}}),
+]
+
 PROPERTY_INFO = {'C06': {'level': 'model_checking',
          'explanation': 'bounded symbolic execution (CBMC) of the real type printers (output_instance of pointer, reference, const, '
                         'array and simple types) and of CPPInstanceIdentifier::unroll_type; the printed declaration is read back by '
